@@ -87,6 +87,11 @@ func harnessFn(name string) externalFn {
 			fr.i.ctx.Reach(a[0].(string))
 			return nil
 		}
+	case "verifSetNow": // installs the harness clock: time.Now() returns this unix-nanosecond cell's value
+		return func(fr *frame, a []value) value {
+			fr.i.nowHook = a[0].(*value)
+			return nil
+		}
 	case "verifIsSymbolic": // for engine self tests
 		return func(fr *frame, a []value) value { return isSym(a[0]) }
 	case "verifMathMode":
